@@ -3,7 +3,7 @@ import json
 import os
 
 from gsa import e1, facts, ir, paths
-from gsa.facts import Unit, rel
+from gsa.facts import Unit, rel, AnalysisBroken
 from gsa.report import Check
 
 TABLE = json.load(open(os.path.join(facts.VERIF, 'tables', 'c15.json')))
@@ -13,6 +13,8 @@ UNITS = [
     Unit('mx_pat', 'matrix_pat.cpp', ['src/Persistence_matrix/', 'src/Zigzag_persistence/'], no_inst=True),
     # option grid (boundary / RU / chain x three indexations) for entry points whose return type depends on the options
     Unit('mx_inst', 'matrix_inst.cpp', ['src/Persistence_matrix/include/gudhi/Matrix.h'], fn=['insert_boundary']),
+    # option grid with and without removable columns: class records with canonical member types and copy members
+    Unit('mx_cls', 'matrix_cls.cpp', ['src/Persistence_matrix/include']),
 ]
 
 
@@ -48,7 +50,7 @@ def _exempt(cls, field, cov, kind):
 def run_e1(chk, F):
     n_special = 0
     for c in F.classes:
-        if c['inst'] not in (0, 2):
+        if c['inst'] not in (0, 2) or c.get('unit') == 'mx_cls':
             continue
         fields = [f for f in c['fields'] if not f.get('empty')]
         cfs = e1.class_functions(F, c)
@@ -107,7 +109,7 @@ def run_e1c(chk, F):
     families, not only the assignment operators."""
     n = n_assign = 0
     for fn in F.functions:
-        if fn['inst'] not in (0, 2) or fn.get('body') is None or fn.get('defaulted'):
+        if fn['inst'] not in (0, 2) or fn.get('body') is None or fn.get('defaulted') or fn.get('unit') == 'mx_cls':
             continue
         ret = fn.get('ret', 'void') or 'void'
         if ret == 'void' or fn['kind'] in ('ctor', 'dtor', 'copy_ctor', 'move_ctor', 'default_ctor'):
@@ -214,7 +216,7 @@ def run_static_state(chk, F):
     families is const / constexpr / thread_local / of an empty type, or in the allow-list with its reason"""
     n = 0
     for v in F.staticvars:
-        if v['const'] or v['constexpr'] or v['unit'] == 'mx_inst':
+        if v['const'] or v['constexpr'] or v['unit'] in ('mx_inst', 'mx_cls'):
             continue
         n += 1
         allow = TABLE['static_state_allowed'].get(v['qual'])
@@ -273,6 +275,150 @@ def run_settings_alias(chk, F):
     chk.expect_count('E10-settings', 'uses of the source settings pointer in copy constructors', n, 4)
 
 
+def _live_walk(n):
+    """pre-order walk that only enters the live arm of an evaluated `if constexpr`"""
+    if n is None:
+        return
+    yield n
+    if n.get('k') == 'IfStmt' and n.get('constexpr') and isinstance(n.get('cv'), bool):
+        for key in ('init', 'cond'):
+            if isinstance(n.get(key), dict):
+                yield from _live_walk(n[key])
+        arm = n.get('then') if n['cv'] else n.get('else')
+        if arm is not None:
+            yield from _live_walk(arm)
+        return
+    for ch in ir.kids(n):
+        yield from _live_walk(ch)
+
+
+ITER_PATTERNS = (
+    (r'std::_List_(?:const_)?iterator<(.+?)>+$', r'std::(?:__cxx11::)?list<%s'),
+    (r'__normal_iterator<(?:const )?(.+?) \*,', r'std::vector<%s'),
+    (r'std::_Rb_tree_(?:const_)?iterator<(.+?)>+$', r'std::(?:map|set|multimap|multiset)<'),
+)
+
+
+def run_self_referential(chk, F):
+    """E1d: a member that stores iterators into a sibling container of the same object cannot be copied member-wise -
+    the copy would keep pointing into the source (the two objects are then not independent, and the copy dangles
+    when the source dies). Decided on instantiated classes (canonical member types) over an option grid with and
+    without removable columns: such a class has a user-provided copy constructor and copy assignment, and in the
+    instantiated copy constructor (only the live `if constexpr` arms) the member is neither initialised nor assigned
+    from the source's member; an assignment operator taking its argument by reference obeys the same rule (copy-and-
+    swap takes it by value and inherits the constructor's behaviour)."""
+    import re
+    classes = [c for c in F.classes if c.get('unit') == 'mx_cls' and c.get('inst') == 1]
+    if len(classes) < 100:
+        raise AnalysisBroken('C15: the class instantiation unit yields only %d classes' % len(classes))
+    fn_by = {}
+    for f in F.functions:
+        if f.get('unit') == 'mx_cls' and f.get('inst') == 1 and f.get('kind') in ('copy_ctor', 'copy_assign'):
+            # key: class qualified name with its template arguments (the function's qualified name minus its own name)
+            fn_by.setdefault((f['qual'].rsplit('::', 1)[0], f['kind']), f)
+    n_fields = 0
+    seen = set()
+    for c in classes:
+        for a in c['fields']:
+            ct = a.get('ct') or ''
+            if 'iterator' not in ct:
+                continue
+            target = None
+            for pat, cont in ITER_PATTERNS:
+                m = re.search(pat, ct)
+                if not m:
+                    continue
+                elem = m.group(1) if '%s' in cont else None
+                rx = cont % re.escape(elem) if elem else cont
+                for b in c['fields']:
+                    if b is not a and re.match(rx, b.get('ct') or ''):
+                        target = b['n']
+            if target is None:
+                continue
+            key = (c['name'], a['n'], c.get('targs'))
+            if key in seen:
+                continue
+            seen.add(key)
+            n_fields += 1
+            opt = re.search(r'Gsa_copt<([^>]*)>', c.get('targs') or '')
+            inst_name = '%s<%s>' % (c['name'], opt.group(1).replace('Gudhi::persistence_matrix::Column_indexation_types::', '')
+                                    if opt else '?')
+            where = '%s:%s' % (rel(c['file']), a.get('l'))
+            ok_decl = c.get('copy_ctor') in ('user', 'deleted') and c.get('copy_assign') in ('user', 'deleted')
+            chk.ob('E1d-self-referential', '%s: `%s` holds iterators into `%s`: copy constructor and copy assignment '
+                   'are user-provided' % (inst_name, a['n'], target), where, ok_decl,
+                   '' if ok_decl else 'copy constructor: %s, copy assignment: %s - a member-wise copy leaves the '
+                   'iterators of the copy pointing into the source' % (c.get('copy_ctor'), c.get('copy_assign')),
+                   key='E1d|%s|%s|declared' % (c['name'], a['n']))
+            for kind in ('copy_ctor', 'copy_assign'):
+                f = fn_by.get((c['qual'] + (c.get('targs') or ''), kind))
+                if c.get(kind if kind == 'copy_ctor' else 'copy_assign') != 'user':
+                    continue
+                if f is None and kind == 'copy_assign':
+                    # not instantiated by the driver: decided on the declaration when it takes its argument by value
+                    decl = [m_ for m_ in c.get('methods', []) if m_.get('kind') == 'copy_assign']
+                    if decl and all('&' not in (p_.get('t') or '') for m_ in decl for p_ in m_.get('params', [])):
+                        chk.ob('E1d-self-referential', '%s: the copy assignment takes its argument by value '
+                               '(copy-and-swap)' % inst_name, where, True, '',
+                               key='E1d|%s|%s|%s' % (c['name'], a['n'], kind))
+                        continue
+                if f is None:
+                    # not instantiated: fall back to the template pattern; a member-wise assignment outside any
+                    # `if constexpr` is live in every instantiation
+                    pats = [g for g in F.functions if g.get('unit') == 'mx_pat' and g.get('inst') == 0 and
+                            g.get('clsname') == c['name'] and g.get('kind') == kind and g.get('body') is not None]
+                    if not pats:
+                        raise AnalysisBroken('C15: %s of %s is neither instantiated by drivers/matrix_cls.cpp nor '
+                                             'found as a pattern' % (kind, inst_name))
+                    g = pats[0]
+                    src = g['params'][0]['n'] if g.get('params') else '?'
+                    par = ir.parents(g['body'])
+                    bad = None
+                    for x in ir.walk(g['body']):
+                        if x.get('k') in ('BinaryOperator', 'CXXOperatorCallExpr') and x.get('op') == '=':
+                            cs = (x.get('c') or [])[-2:]
+                            if len(cs) == 2 and ir.show(cs[0]).split('.')[-1] == a['n'] and \
+                                    ir.show(cs[1]).endswith('%s.%s' % (src, a['n'])):
+                                cur, guarded = x, False
+                                while id(cur) in par:
+                                    cur = par[id(cur)]
+                                    guarded = guarded or (cur.get('k') == 'IfStmt' and cur.get('constexpr'))
+                                if guarded:
+                                    raise AnalysisBroken('C15: %s of %s assigns `%s` under an `if constexpr` and is '
+                                                         'not instantiated by drivers/matrix_cls.cpp' %
+                                                         (kind, inst_name, a['n']))
+                                bad = 'assigned from %s.%s (line %s)' % (src, a['n'], x.get('l'))
+                    chk.ob('E1d-self-referential', '%s: the copy assignment does not copy `%s` member-wise' %
+                           (inst_name, a['n']), '%s:%s' % (rel(g['file']), g['line']), bad is None,
+                           '' if bad is None else '`%s` is %s: its iterators keep pointing into the source\'s `%s`'
+                           % (a['n'], bad, target), key='E1d|%s|%s|%s' % (c['name'], a['n'], kind))
+                    continue
+                src = f['params'][0]['n'] if f.get('params') else None
+                by_value = f.get('params') and '&' not in (f['params'][0].get('t') or '')
+                bad = None
+                if kind == 'copy_assign' and by_value:
+                    pass
+                else:
+                    for ini in f.get('inits', []):
+                        if ini.get('member') == a['n'] and ini.get('init') is not None and \
+                                re.search(r'(?<!\w)%s\.%s(?!\w)' % (re.escape(src or '?'), re.escape(a['n'])),
+                                          ir.show(ini['init'])):
+                            bad = 'initialised from %s.%s' % (src, a['n'])
+                    for x in _live_walk(f.get('body')):
+                        if x.get('k') in ('BinaryOperator', 'CXXOperatorCallExpr') and x.get('op') == '=':
+                            cs = (x.get('c') or [])[-2:]
+                            if len(cs) == 2 and ir.show(cs[0]).split('.')[-1] == a['n'] and \
+                                    ir.show(cs[1]).endswith('%s.%s' % (src, a['n'])):
+                                bad = 'assigned from %s.%s (line %s)' % (src, a['n'], x.get('l'))
+                chk.ob('E1d-self-referential', '%s: the %s does not copy `%s` member-wise' %
+                       (inst_name, 'copy constructor' if kind == 'copy_ctor' else 'copy assignment', a['n']),
+                       '%s:%s' % (rel(f['file']), f['line']), bad is None,
+                       '' if bad is None else '`%s` is %s: its iterators keep pointing into the source\'s `%s`'
+                       % (a['n'], bad, target), key='E1d|%s|%s|%s' % (c['name'], a['n'], kind))
+    chk.count('E1d members holding iterators into a sibling container', n_fields)
+    chk.expect_count('E1d-self-referential', 'members holding iterators into a sibling container', n_fields, 2)
+
+
 def run_nullness(chk, F):
     """E12: no operation dereferences, member-accesses or destroys a pointer that the class itself treats as nullable on
     a path on which it can be null (gsa/nullness.py). Covers every class of the two families except the general
@@ -282,7 +428,7 @@ def run_nullness(chk, F):
     by = {}
     seen = set()
     for f in F.functions:
-        if f.get('inst') not in (0, 2) or f.get('body') is None or f.get('unit') == 'mx_inst':
+        if f.get('inst') not in (0, 2) or f.get('body') is None or f.get('unit') in ('mx_inst', 'mx_cls'):
             continue
         c = f.get('cls') or f.get('friendof')
         if not c or any(g in f['file'] for g in c09.GENERAL_FILES):
@@ -339,6 +485,7 @@ def run(tier, replay=None):
     run_bounded_reads(chk, F)
     run_static_state(chk, F)
     run_nullness(chk, F)
+    run_self_referential(chk, F)
     run_settings_alias(chk, F)
     # deserialisation rebuilds the dimension bound of the tree it creates (shared rule C01/R3b)
     from rules import c01, c03
